@@ -80,6 +80,9 @@ unsigned long g_vi_clears, g_vc_clears;
 void vorbis_info_clear(vorbis_info *vi) __CPROVER_assigns(*vi, g_vi_clears) __CPROVER_ensures(g_vi_clears == OLD(g_vi_clears) + 1);
 void vorbis_comment_clear(vorbis_comment *vc) __CPROVER_assigns(*vc, g_vc_clears) __CPROVER_ensures(g_vc_clears == OLD(g_vc_clears) + 1);
 #define TBL_OK(p, n) ((p) == NULL || FRESH((p), (n)))
+#ifndef OVC_MAXLINKS
+#define OVC_MAXLINKS 4
+#endif
 #endif
 int ov_clear(OggVorbis_File *vf)
   __CPROVER_requires(vf == NULL || FRESH(vf, sizeof(*vf)))
@@ -87,7 +90,7 @@ int ov_clear(OggVorbis_File *vf)
 #ifdef VERIF_ENFORCE_ov_clear
   /* a handle in ANY life-cycle state (zeroed, half-open, open, after failures):
      every table pointer is NULL or owns its table; vi and vc come in a pair */
-  __CPROVER_requires(vf == NULL || (vf->links >= 0 && vf->links <= (1 << 20) &&
+  __CPROVER_requires(vf == NULL || (vf->links >= 0 && vf->links <= OVC_MAXLINKS &&
                      ((vf->vi == NULL) == (vf->vc == NULL)) && (vf->vi == NULL || vf->links >= 1) &&
                      TBL_OK(vf->vi, sizeof(vorbis_info) * vf->links) && TBL_OK(vf->vc, sizeof(vorbis_comment) * vf->links) &&
                      TBL_OK(vf->dataoffsets, 8) && TBL_OK(vf->pcmlengths, 8) && TBL_OK(vf->serialnos, 8) && TBL_OK(vf->offsets, 8)))
